@@ -292,6 +292,10 @@ func (x *Exec) applyContract(st *State, fr *Frame, in ssa.Instruction, fn *ssa.F
 	}
 	// the callee's writes must be allowed in the caller's frame as well
 	for _, m := range mods {
+		if strings.HasPrefix(m, "@PRED@") {
+			x.note("set-valued modifies clause of callee " + funcKey(fn) + " is not re-checked against the caller's frame")
+			continue
+		}
 		x.frameCheck(st, fr, m, in)
 	}
 	x.havocForCall(st, fn, mods)
@@ -318,7 +322,11 @@ func (x *Exec) applyContract(st *State, fr *Frame, in ssa.Instruction, fn *ssa.F
 		if mentionsTrace(cl.E) {
 			continue // speaks about the callee's own call trace: meaningless to the caller
 		}
-		x.assume(st, env.evalBool(cl.E))
+		if g, ok := x.tryEvalBool(env, cl.E); ok {
+			x.assume(st, g)
+		} else {
+			x.note("ensures clause of " + funcKey(fn) + " not applicable at an instantiation and skipped: " + cl.Src)
+		}
 	}
 	x.seqCtr++
 	st.trace = append(st.trace, &CallEvent{Callee: traceName(fn), Args: args, Res: res, Seq: x.seqCtr})
@@ -363,7 +371,7 @@ func (x *Exec) havocArray(st *State, name, below string, except []string) {
 	q := x.fresh("r")
 	cond := []string{app("<", q, below)}
 	for _, m := range except {
-		cond = append(cond, not(eq(q, m)))
+		cond = append(cond, not(modMatch(q, m)))
 	}
 	x.assume(st, "(forall (("+q+" Int)) (! (=> "+and(cond...)+" (= (select "+nw+" "+q+") (select "+old+" "+q+"))) :pattern ((select "+nw+" "+q+"))))")
 }
@@ -426,10 +434,17 @@ func (x *Exec) resolveType(fn *ssa.Function, name string) types.Type {
 			pkg = f.Pkg.Pkg
 		}
 		if i := strings.Index(name, "."); i >= 0 && pkg != nil {
-			for _, imp := range pkg.Imports() {
-				if imp.Name() == name[:i] {
-					if o := imp.Scope().Lookup(name[i+1:]); o != nil {
-						T = o.Type()
+			// the qualifier may be the package name or a file-local import alias such as
+			// `plugintypes`: accept an import whose name is a suffix of the qualifier
+			for pass := 0; pass < 2 && T == nil; pass++ {
+				for _, imp := range pkg.Imports() {
+					if (pass == 0 && imp.Name() == name[:i]) || (pass == 1 && strings.HasSuffix(name[:i], imp.Name())) {
+						if o := imp.Scope().Lookup(name[i+1:]); o != nil {
+							if _, isType := o.(*types.TypeName); isType {
+								T = o.Type()
+								break
+							}
+						}
 					}
 				}
 			}
